@@ -83,10 +83,19 @@ def _worker(arg):
                 tgt = i_.get('reloc_add', 0) + (a_ + i_['len'] - i_['reloc_at'])
                 cu.append((a_, i_['mn'], i_['reloc'], tgt, family(i_['reloc'], tgt)))
         r['constuse'] = cu
+        # unsigned threshold tests against a constant close to the top of a byte: `cmp ctr, 256-N ; jae overflow`
+        th_ = []
+        for a_ in asmint.reachable_insns(entry, insns):
+            i_ = insns[a_]
+            if i_['mn'] == 'cmp' and i_['next'] in insns and insns[i_['next']]['mn'] in asmint.JCC:
+                o_ = asmint.split_ops(i_['ops'])
+                if len(o_) == 2 and re.match(r'^(0x[0-9a-f]+|\d+)$', o_[1]) and 0xC0 <= int(o_[1], 0) <= 0xFF:
+                    th_.append((a_, int(o_[1], 0), asmint.JCC[insns[i_['next']]['mn']]))
+        r['hi_tests'] = th_
         r['gprw0'] = sorted(w0)
         r['callees0'] = sorted(c for c in cl if c)
         # map interesting addresses to source lines
-        addrs = set(e['a'] for e in r['exits']) | set(s['a'] for s in r['stores']) | set(r['assumed']) | set(c_[0] for c_ in cu) | \
+        addrs = set(e['a'] for e in r['exits']) | set(s['a'] for s in r['stores']) | set(r['assumed']) | set(c_[0] for c_ in cu) | set(t_[0] for t_ in th_) | \
             set(i[1] for i in r['issues'] if isinstance(i[1], int)) | set(x[0] for x in r['special']) | {entry}
         if lt is None:
             lt = _line_table(obj)
